@@ -22,6 +22,7 @@ type faultPlan struct {
 	K       int  `json:"k"`
 	Forever bool `json:"forever"`
 	Partial bool `json:"partial"`
+	Full    bool `json:"full"` // the failing Write accepts every byte and still reports the error
 }
 
 // wcl is the common interface of the three writers.
@@ -100,7 +101,7 @@ func (b byteSink) WriteByte(c byte) error {
 
 // runFault replays a scenario with a fault plan; k = 0 means no fault.
 func runFault(sc faultScenario, plan faultPlan, asByteWriter bool, tr *bytes.Buffer) (calls []callRec, sink *RecSink, written []byte, panicked any) {
-	sink = &RecSink{FailAt: plan.K, Forever: plan.Forever, Partial: plan.Partial, Err: errSinkFault}
+	sink = &RecSink{FailAt: plan.K, Forever: plan.Forever, Partial: plan.Partial, Full: plan.Full, Err: errSinkFault}
 	var target io.Writer = onlyWriter{sink}
 	if asByteWriter {
 		target = byteSink{sink}
@@ -223,7 +224,7 @@ func C09(c *hx.Ctx) {
 			// sinks with more than 96 writes (byte writers): sample further indices
 			for k := 97; k <= m; k += 1 + m/c.Pick(150, 1500) {
 				for _, f := range []bool{false, true} {
-					jobs = append(jobs, job{si, faultPlan{k, f, k%2 == 0}, bw})
+					jobs = append(jobs, job{si, faultPlan{K: k, Forever: f, Partial: k%3 == 0, Full: k%3 == 1}, bw})
 				}
 			}
 		}
@@ -272,9 +273,9 @@ func C09(c *hx.Ctx) {
 		valid = valid && bytes.Equal(content, written)
 		switch {
 		case p != nil:
-			c.Violation(sig("panic"), fmt.Sprintf("%s fault at sink write %d (forever=%v partial=%v): %s panicked: %v", sc.name, j.plan.K, j.plan.Forever, j.plan.Partial, lastOp, p), replay)
+			c.Violation(sig("panic"), fmt.Sprintf("%s fault at sink write %d (forever=%v partial=%v full=%v): %s panicked: %v", sc.name, j.plan.K, j.plan.Forever, j.plan.Partial, j.plan.Full, lastOp, p), replay)
 		case sink.Failed && !anyErr:
-			c.Violation(sig("failure-masked"), fmt.Sprintf("%s: sink write %d failed (forever=%v partial=%v) but every call returned nil", sc.name, j.plan.K, j.plan.Forever, j.plan.Partial), replay)
+			c.Violation(sig("failure-masked"), fmt.Sprintf("%s: sink write %d failed (forever=%v partial=%v full=%v) but every call returned nil", sc.name, j.plan.K, j.plan.Forever, j.plan.Partial, j.plan.Full), replay)
 		case !anyErr && !valid:
 			c.Violation(sig("success-without-valid-stream"), fmt.Sprintf("%s: every call returned nil but the sink does not hold a complete valid stream of the written data", sc.name), replay)
 		}
